@@ -15,6 +15,14 @@ from pysym.proxies import Proxy, SInt, SBool, lift
 
 Int = z3.IntSort()
 Marked = z3.Function('dir_has_init_py', Int, z3.BoolSort())
+IsDir = z3.Function('ancestor_is_an_existing_directory', Int, z3.BoolSort())
+IsRoot = z3.Function('ancestor_is_a_directory_of_the_search_path', Int, z3.BoolSort())
+
+
+def Pk(j):
+    """the j-th ancestor directory is a package component of the file's module name: it holds __init__.py and is not itself a directory modules
+    are searched in"""
+    return z3.And(Marked(j), z3.Not(IsRoot(j)))
 T_FS = ('os.path.join / dirname / basename / exists, os.listdir, os.path.getmtime: functions of an abstract file system (directory chain '
         'with an `__init__.py` predicate per level; set of existing files)')
 
@@ -53,6 +61,13 @@ class OsPath(object):
         if p.extra == ('__init__.py',):
             return core.CUR.branch(Marked(p.level))
         raise EngineEscape('exists(%r)' % (p.extra,))
+
+    @staticmethod
+    def isdir(p):
+        core.RUN.trust(T_FS)
+        if not p.extra:
+            return core.CUR.branch(IsDir(p.level))
+        raise EngineEscape('isdir(%r)' % (p.extra,))
 
 
 class OsStub(object):
@@ -166,8 +181,10 @@ finally:
 def norm_package(run, twin=None):
     """absolute names are returned unchanged; a relative name with k leading dots resolves, as importlib.util.resolve_name does with the
     file's __package__, to the package k-1 levels above the file's package (plus the rest of the name), and raises ImportError exactly
-    when there are not that many enclosing packages.  Loop invariants: after j rounds `root` is the j-th ancestor directory; while
-    collecting, parts == names of the marked directories from level k up to the current one"""
+    when there are not that many enclosing packages - the directories the dots pass must be packages themselves.  Loop invariants: after j
+    rounds `root` is the (j+1)-th ancestor directory and every directory passed is a package (or does not exist: the domain is real trees, a
+    file in a directory that is not there yet has no importlib answer); while collecting, parts == names of the marked directories from
+    level k up to the current one"""
     run.trust(T_FS)
     run.concretise = lambda model, ob: {'input': 'a package directory below a plain directory below a package', 'script': NORM_REPLAY % {'repo': core.REPO}}
     k = z3.Int('leading_dots')
@@ -175,11 +192,15 @@ def norm_package(run, twin=None):
     holder = {}
 
     def inv0(L, st):
+        # after j rounds `root` is the (j+1)-th ancestor (the first dot is the file's own directory), and every directory passed on the
+        # way is a package - or is not there at all (a file being written in a directory that does not exist yet)
         r = st['root']
-        return z3.And(z3.BoolVal(isinstance(r, PathP) and not r.extra), (r.level == L.k) if isinstance(r, PathP) else z3.BoolVal(False))
+        i = z3.Int('ci')
+        return z3.And(z3.BoolVal(isinstance(r, PathP) and not r.extra), (r.level == L.k + 1) if isinstance(r, PathP) else z3.BoolVal(False),
+                      z3.ForAll([i], z3.Implies(z3.And(i >= 1, i <= L.k), z3.And(z3.Not(IsRoot(i)), z3.Or(Marked(i), z3.Not(IsDir(i)))))))
 
     def hav0(L, st):
-        return {'root': PathP(L.k)}
+        return {'root': PathP(z3.simplify(L.k + 1))}
 
     def inv1(L, st):
         r, parts = st['root'], st['parts']
@@ -189,7 +210,7 @@ def norm_package(run, twin=None):
         if parts.lo is None:
             return r.level == k
         return z3.And(parts.lo == k, parts.hi == r.level, r.level >= k,
-                      z3.ForAll([j], z3.Implies(z3.And(j >= k, j < r.level), Marked(j))))
+                      z3.ForAll([j], z3.Implies(z3.And(j >= k, j < r.level), Pk(j))))
 
     def hav1(L, st):
         t = core.fresh('climbed', Int)
@@ -216,8 +237,8 @@ def norm_package(run, twin=None):
             t = core.fresh('cached_depth', Int)
             j = z3.Int('hj')
             assume(t >= 1)
-            axiom(z3.ForAll([j], z3.Implies(z3.And(j >= key.level, j < key.level + t), Marked(j))))
-            assume(z3.Not(Marked(key.level + t)))
+            axiom(z3.ForAll([j], z3.Implies(z3.And(j >= key.level, j < key.level + t), Pk(j))))
+            assume(z3.Not(Pk(key.level + t)))
             holder['hit'] = True
             return Parts(key.level, z3.simplify(key.level + t))
 
@@ -238,7 +259,12 @@ def norm_package(run, twin=None):
         assume(pkg.restlen >= 0)
         assume(has_rest == (pkg.restlen > 0))
         holder['pkg'] = pkg
-        return f(real_project(Pj, _norm_cache=Cache()), pkg, PathP(z3.IntVal(0)))
+        # is_root by its contract (ground obligations below): is this directory one of those modules are searched in?
+        def is_root(pth):
+            if not isinstance(pth, PathP) or pth.extra:
+                raise EngineEscape('is_root(%r)' % (pth,))
+            return core.CUR.branch(IsRoot(pth.level))
+        return f(real_project(Pj, _norm_cache=Cache(), is_root=is_root), pkg, PathP(z3.IntVal(0)))
 
     def on_path(p, out):
         pkg = holder['pkg']
@@ -250,8 +276,9 @@ def norm_package(run, twin=None):
         if 'cached' in holder:
             ckey, cval = holder['cached']
             prove('stored-under-the-same-key', ckey is holder.get('looked_up'), path=p)
-        m = z3.Int('m')      # depth of the file's package: levels 1..m marked, level m+1 not
-        pk = z3.And(m >= 0, z3.ForAll([j], z3.Implies(z3.And(j >= 1, j <= m), Marked(j))), z3.Not(Marked(m + 1)))
+        m = z3.Int('m')      # depth of the file's package: levels 1..m marked, level m+1 not; the directories above the file exist (a real tree)
+        pk = z3.And(m >= 0, z3.ForAll([j], z3.Implies(z3.And(j >= 1, j <= m), Pk(j))), z3.Not(Pk(m + 1)),
+                    z3.ForAll([j], z3.Implies(j >= 1, IsDir(j))))
         kk = k if not twin else k + 1
         if out[0] == 'ok':
             r = out[1]
@@ -267,7 +294,8 @@ def norm_package(run, twin=None):
             prove('rest-appended-iff-present', z3.BoolVal(rest is not None) == has_rest, clause='the part after the dots is appended when there is one', path=p)
             within = kk <= m       # the leading dots stay inside the file's own package chain
             prove('resolves-like-importlib', z3.Implies(z3.And(pk, within), z3.And(kk >= 1, parts.lo == kk, parts.hi == m + 1)),
-                  clause='== importlib.util.resolve_name(name, __package__): the packages from the file\'s top-level package down to level k', path=p)
+                  clause='== importlib.util.resolve_name(name, __package__): the packages from the file\'s top-level package (the directories with '
+                         '__init__.py below the nearest directory of the search path) down to level k', path=p)
             prove('refuses-to-climb-out-of-the-top-level-package', z3.Implies(pk, within),
                   clause='a name with more leading dots than the file has enclosing packages does not resolve (importlib raises ImportError)', path=p)
         elif isinstance(out[1], ImportError):
@@ -1149,6 +1177,32 @@ def resolution_small_trees(run):
                         prove('%s:%s' % (label, nm), got == want, clause='file analysed == file importlib loads from roots + sys.path [%r vs %r]' % (got, want), path=path)
                 finally:
                     _sysd.path[:] = saved
+            # a source root that itself lies inside a package: the names of its modules start below it
+            base = os.path.join(top, 'nested-root')
+            deep = os.path.join(base, 'outer', 'inner', 'pkg')
+            os.makedirs(deep)
+            for d_ in (os.path.join(base, 'outer'), os.path.join(base, 'outer', 'inner'), deep):
+                open(os.path.join(d_, '__init__.py'), 'w').close()
+            mfile = os.path.join(deep, 'm.py')
+            open(mfile, 'w').close()
+            for root_, package in ((os.path.join(base, 'outer', 'inner'), 'pkg'), (base, 'outer.inner.pkg'), (os.path.join(base, 'outer'), 'inner.pkg')):
+                for spec_ in ('.n', '..n', '...n', '....n', '.', '..'):
+                    try:
+                        want = importlib.util.resolve_name(spec_, package)
+                    except ImportError:
+                        want = None
+                    try:
+                        got = Project([root_]).norm_package(spec_, mfile)
+                    except ImportError:
+                        got = None
+                    prove('root-inside-a-package:%s:%s' % (package, spec_), got == want,
+                          clause='norm_package(%r) from a module named %s.m == importlib.util.resolve_name [%r vs %r]' % (spec_, package, got, want), path=path)
+            # is_root: exactly the directories of the search path, however they are spelt
+            pr = Project([os.path.join(base, 'outer', 'inner') + os.sep, os.path.join(base, 'outer', '..', 'outer')])
+            for d_, want in ((os.path.join(base, 'outer', 'inner'), True), (os.path.join(base, 'outer'), True), (deep, False), (base, False),
+                             (os.path.join(base, 'outer', 'inner', 'pkg', '..'), True)):
+                isr = getattr(pr, 'is_root', lambda d__: '<no is_root>')(d_)
+                prove('is_root:%s' % os.path.relpath(d_, base), isr == want, clause='is_root == the directory is one of sources + sys.path [%r]' % (isr,), path=path)
             # names with an empty component are no module names
             base = os.path.join(top, 'emptycomp')
             os.makedirs(os.path.join(base, 'p'))
